@@ -80,6 +80,7 @@ fn resolve_constant_simple(
         report,
         decls,
         defs,
+        &symbol_decl.ctx,
         &ast_const.expr)?;
 
 
